@@ -480,13 +480,13 @@ class NetBench:
         return ev
 
 
-def mesh_json(n, arcs, variant=0, passive=True):
+def mesh_json(n, arcs, variant=0, passive=True, raman_every=8):
     """legacy topology JSON of a generated mesh: Transceiver + Roadm per site; per arc <<a, b, k>> one fibre of km
     kilometres, or - for a 0 km PATCH - one amplifier only (two ROADMs back to back: an OMS without any fibre).
     Topology files describe a fibre link in several ways; which one an arc gets is drawn from variant, the graph is
     the same:   0 the bare fibre (auto-design equips it)        1 the fibre followed by an amplifier written in the file
                 2 a RamanFiber span with its amplifier (spans that auto-design does not split: <= 140 km; in one
-                  mesh out of eight, elsewhere as 1)
+                  mesh out of raman_every, elsewhere as 1)
                 3 a PASSIVE link, Fused - fibre - Fused: no amplifier at all in the OMS (50 km links only)"""
     data = line_or_mesh_json([str(k) for k in range(1, n + 1)], [])
     line_arc = {}
@@ -501,7 +501,7 @@ def mesh_json(n, arcs, variant=0, passive=True):
         if km > 0:
             fibre = dict(uid=f'fiber {tag}', type='Fiber', type_variety='SSMF',
                          params={'length': km, 'length_units': 'km', 'loss_coef': 0.2, 'con_in': None, 'con_out': None})
-            if style == 2 and km <= 140 and variant % 8 == 1:       # (one mesh in eight: designing Raman spans is slow)
+            if style == 2 and km <= 140 and variant % raman_every == 1:   # (designing Raman spans is slow)
                 fibre.update(type='RamanFiber', operational={'temperature': 283, 'raman_pumps': pumps})
                 fibre['params'].update(con_in=0.5, con_out=0.5)      # a RamanFiber needs its connector losses
                 chain += [fibre, dict(amp, uid=f'amplifier after fiber {tag}')]
@@ -523,14 +523,14 @@ def mesh_json(n, arcs, variant=0, passive=True):
     if passive and not amplified:
         # every link would be passive: the network would hold no amplifier at all, which build_oms_list does not
         # accept (spectrum matters, not routing) - write the links the usual way instead
-        return mesh_json(n, arcs, variant, passive=False)
+        return mesh_json(n, arcs, variant, passive=False, raman_every=raman_every)
     return data, line_arc
 
 
-def mesh_bench(n, arcs, variant=0):
+def mesh_bench(n, arcs, variant=0, raman_every=8):
     """generated mesh: sites '1'..'n'; arcs = [[a, b, km, k], ...] both directions listed"""
     eq = equipment()
-    data, line_arc = mesh_json(n, arcs, variant)
+    data, line_arc = mesh_json(n, arcs, variant, raman_every=raman_every)
     net, _, _ = designed(data, eq)
     return NetBench(net, eq, {f'roadm {k}': k for k in range(1, n + 1)}, {f'trx {k}': k for k in range(1, n + 1)},
                     line_arc, {k: f'trx {k}' for k in range(1, n + 1)}, {k: f'roadm {k}' for k in range(1, n + 1)})
@@ -539,7 +539,7 @@ def mesh_bench(n, arcs, variant=0):
 def run_mesh_job(job):
     """worker: design the mesh once, replay all its batches; returns (trace, exceptions)"""
     try:
-        bench = mesh_bench(job['n'], job['links'], job['mesh'])
+        bench = mesh_bench(job['n'], job['links'], job['mesh'], job.get('raman_every', 8))
     except Exception as e:                                        # noqa
         return None, [dict(stage='design', mesh=job['mesh'], exc=f'{type(e).__name__}: {e}',
                            tb=traceback.format_exc()[-1500:])]
@@ -672,10 +672,10 @@ def report_exceptions(chk, excs, origin):
                                batch={k: b[k] for k in ('reqs', 'groups')}, exception=x['exc'], traceback=x['tb']))
 
 
-def b2(chk, pid, jobs, origin='B2', keep=lambda b: True, extra=None):
+def b2(chk, pid, jobs, origin='B2', keep=lambda b: True, extra=None, raman_every=8):
     """replay the generated jobs into the real code and judge them; returns statistics.
     extra = (traces, metas) recorded elsewhere (B3): judged in the same TLC pass, reported under 'B3'"""
-    jobs = [dict(j, batches=[b for b in j['batches'] if keep(b)]) for j in jobs.values()]
+    jobs = [dict(j, batches=[b for b in j['batches'] if keep(b)], raman_every=raman_every) for j in jobs.values()]
     jobs = [j for j in jobs if j['batches']]
     # a lattice serves few requests per process: its batches are spread over several jobs
     jobs = [j for j in jobs if j['n'] < 10] + [dict(j, batches=j['batches'][o:o + 3], offset=o)
